@@ -21,12 +21,12 @@ INTRIN_MATH = {'@llvm.sqrt.f64': 'sqrt', '@llvm.fabs.f64': 'fabs', '@llvm.floor.
 class Unencodable(Exception): pass
 
 class CGen:
-    def __init__(s, m, roots, redirect=None, allow_ext=(), indirect=None):
+    def __init__(s, m, roots, redirect=None, allow_ext=(), indirect=None, step_funcs=()):
         """redirect: {mangled name: replacement name} (both with '@'); allow_ext: extra externals left undefined on
         purpose (nondeterministic in cbmc); indirect: {function name: [candidate callee names]} for indirect calls"""
         s.m = m; s.roots = list(roots); s.tdecl = {}; s.torder = []
         s.redirect = dict(redirect or {}); s.allow_ext = set(allow_ext); s.indirect = indirect or {}
-        s.helpers = set()
+        s.helpers = set(); s.step_funcs = set(step_funcs)
     # ---------- types
     def ctype(s, t):
         if isinstance(t, NamedT):
@@ -155,10 +155,17 @@ class CGen:
                 else: raise Exception('regty %s' % op)
         pnames = [nm for _, nm, _ in F.params]
         params = ', '.join('%s %s' % (s.ctype(ty), rn(nm)) for ty, nm, bv in F.params) or 'void'
-        o = ['%s %s(%s) {' % (s.ctype(rty), cid(fname), params)]
+        step = fname in s.step_funcs      # A-seq: resumable step machine, one atomic operation per step (yield BEFORE every atomic instruction)
+        if step and (F.params or not isinstance(rty, VoidT)): raise Unencodable('step function %s must be void(void)' % fname)
+        SN = cid(fname); st = 'static ' if step else ''; nyield = [0]
+        o = ['%s %s(%s) {' % (s.ctype(rty), SN + ('_step' if step else ''), params)]
         for r, ty in regty.items():
             if r in pnames: continue
-            o.append('  %s %s;' % (s.ctype(ty), rn(r)))
+            o.append('  %s%s %s;' % (st, s.ctype(ty), rn(r)))
+        if step: o.append('  switch (%s_pc) { case 0: ;' % SN)
+        def yield_point():
+            nyield[0] += 1
+            return '  %s_pc = %d; return; case %d: ;' % (SN, nyield[0], nyield[0])
         nal = 0; nbr = [0]; phitmp = {}; cdecl = []
         for ty, nm, bv in F.params:
             if bv is not None:
@@ -204,12 +211,14 @@ class CGen:
                     nal += 1
                     if i.n is not None and i.n[0] != 'int': raise Unencodable('variable-size alloca in %s' % fname)
                     cnt = i.n[1] if i.n is not None else 1
-                    if cnt == 1: o.insert(1, '  %s al_%d;' % (s.ctype(i.ty), nal)); o.append('  %s = &al_%d;' % (d, nal))
-                    else: o.insert(1, '  %s al_%d[%d];' % (s.ctype(i.ty), nal, cnt)); o.append('  %s = &al_%d[0];' % (d, nal))
+                    if cnt == 1: o.insert(1, '  %s%s al_%d;' % (st, s.ctype(i.ty), nal)); o.append('  %s = &al_%d;' % (d, nal))
+                    else: o.insert(1, '  %s%s al_%d[%d];' % (st, s.ctype(i.ty), nal, cnt)); o.append('  %s = &al_%d[0];' % (d, nal))
                 elif op == 'load':
+                    if step and getattr(i, 'atomic', False): o.append(yield_point())
                     pre, post = ('__CPROVER_atomic_begin(); ', ' __CPROVER_atomic_end();') if getattr(i, 'atomic', False) else ('', '')
                     o.append('  %s%s = *(%s *)%s;%s' % (pre, d, s.ctype(i.ty), V(i.a, PtrT(i.ty)), post))
                 elif op == 'store':
+                    if step and getattr(i, 'atomic', False): o.append(yield_point())
                     pre, post = ('__CPROVER_atomic_begin(); ', ' __CPROVER_atomic_end();') if getattr(i, 'atomic', False) else ('', '')
                     o.append('  %s*(%s *)%s = %s;%s' % (pre, s.ctype(i.ty), V(i.a, PtrT(i.ty)), V(i.v, i.ty), post))
                 elif op == 'getelementptr':
@@ -291,7 +300,9 @@ class CGen:
                         bits = m.resolve(i.ty).bits
                         for cv, l in i.cases: o.append('    case %dULL: %s' % (cv & ((1 << bits) - 1), edge(l)))
                         o.append('    default: %s }' % edge(i.default))
-                elif op == 'ret': o.append('  return %s;' % (V(i.v, i.ty) if i.v is not None else ''))
+                elif op == 'ret':
+                    if step: o.append('  %s_done = 1; %s_pc = -1; return;' % (SN, SN))
+                    else: o.append('  return %s;' % (V(i.v, i.ty) if i.v is not None else ''))
                 elif op == 'landingpad': o.append('  __CPROVER_assume(0);')
                 elif op == 'unreachable': o.append('  __CPROVER_assume(0);' + (' return;' if isinstance(rty, VoidT) else ''))
                 elif op == 'fence': pass
@@ -348,10 +359,12 @@ class CGen:
                     if i.normal is not None:
                         o.append('  goto L_%s;' % cid(i.normal))
                 elif op == 'cmpxchg':
+                    if step: o.append(yield_point())
                     ct = s.ctype(i.ty)
                     o.append('  __CPROVER_atomic_begin(); %s.f0 = *(%s *)%s; %s.f1 = (%s.f0 == %s); if (%s.f1) *(%s *)%s = %s; __CPROVER_atomic_end();' %
                              (d, ct, V(i.a, None), d, d, V(i.cmp, i.ty), d, ct, V(i.a, None), V(i.new, i.ty)))
                 elif op == 'atomicrmw':
+                    if step: o.append(yield_point())
                     ct = s.ctype(i.ty)
                     if i.rmw == 'xchg': upd = V(i.v, i.ty)
                     else:
@@ -374,16 +387,28 @@ class CGen:
                         t = t.els[k] if isinstance(t, StructT) else t.el
                     o.append('  %s = %s;' % (acc, V(i.v, i.vt)))
                 else: raise Exception('emit %s' % op)
+        if step: o.append('  default: return; }')
         o.append('}')
-        for dn, ct in phitmp.items(): o.insert(1, '  %s t_%s;' % (ct, dn))
-        if cdecl: o.insert(1, '  unsigned char %s;' % ', '.join(cdecl))
+        for dn, ct in phitmp.items(): o.insert(1, '  %s%s t_%s;' % (st, ct, dn))
+        if cdecl: o.insert(1, '  %sunsigned char %s;' % (st, ', '.join(cdecl)))
+        if step:
+            s.step_info[fname] = nyield[0]
+            o.insert(0, 'int %s_pc; int %s_done; /* step machine of %s: %d yield points */' % (SN, SN, fname, nyield[0]))
+            # a callee that itself performs atomic operations would run them without a scheduling point: refuse
+            for b2 in F.order:
+                for i2 in F.blocks[b2]:
+                    if i2.op == 'call' and i2.callee[0] == 'glob' and i2.callee[1] in s.m.funcs:
+                        for cf in reachable(s.m, [i2.callee[1]])[2].values():
+                            for b3 in cf.order:
+                                for i3 in cf.blocks[b3]:
+                                    if i3.op in ('cmpxchg', 'atomicrmw') or getattr(i3, 'atomic', False): raise Unencodable('step function %s calls %s which contains atomic operations (not inlined)' % (fname, i2.callee[1]))
         return '\n'.join(o)
     def allowed_external(s, f):
         n = f[1:]
         return (f in LIBM or n.startswith('nondet_') or n.startswith('__CPROVER') or n.startswith('__verif_') or f in s.allow_ext
                 or n.startswith('llvm.') or f in ('@_Znwm', '@_Znam', '@_ZdlPv', '@_ZdaPv', '@memcpy', '@memset', '@memmove', '@memcmp', '@strlen', '@abort', '@free', '@malloc'))
     def run(s):
-        s.F = {}; s.called = set(); s.used_globals = set(); s.nondets = set()
+        s.F = {}; s.called = set(); s.used_globals = set(); s.nondets = set(); s.step_info = {}
         roots = [s.redirect.get(r, r) for r in s.roots]
         extra = set()
         for fn, cands in s.indirect.items():
@@ -408,7 +433,7 @@ class CGen:
         protos = []
         for f in seen:
             F = s.F[f]
-            protos.append('%s %s(%s);' % (s.ctype(ret_type(s.m, f)), cid(f), ', '.join(s.ctype(ty) for ty, nm, bv in F.params) or 'void'))
+            protos.append('%s %s%s(%s);' % (s.ctype(ret_type(s.m, f)), cid(f), '_step' if f in s.step_funcs else '', ', '.join(s.ctype(ty) for ty, nm, bv in F.params) or 'void'))
         for f in sorted(ext):
             n = f[1:]
             if f.startswith('@llvm.') or f in ('@_Znwm', '@_Znam', '@_ZdlPv', '@_ZdaPv') or f not in s.m.decl_lines: continue
@@ -469,9 +494,9 @@ class CGen:
         if v[0] == 'cgep': return '(void*)' + s.val(v, ty)
         raise Exception('cinit %r' % (v,))
 
-def translate(ll_path, roots, redirect=None, allow_ext=(), indirect=None):
+def translate(ll_path, roots, redirect=None, allow_ext=(), indirect=None, step_funcs=()):
     m = parse_module(ll_path)
-    g = CGen(m, roots, redirect, allow_ext, indirect)
+    g = CGen(m, roots, redirect, allow_ext, indirect, step_funcs)
     code = g.run()
     return code, g
 
